@@ -327,7 +327,13 @@ def g_name_parts(rng):
 def g_utts(rng, n):
     pool = ["a", "b", "utt1", "utt2", "u.3", "u-4", "zz", "A", "p_q", "u10", "u9", "x.pt", "ab", "pt"]
     rng.shuffle(pool)
-    return pool[:n]
+    out = pool[:n]
+    # ids that extend another id by a character sorting before '.', the first character of the usual suffix
+    # ("a" < "a-1" as ids, but "a-1.pt" < "a.pt" as file names): order by id and order by file name differ
+    if n >= 2 and rng.random() < 0.4:
+        base = out[0]
+        out[1] = base + rng.choice(["-1", "+x", "-b", "#2", ",c"])
+    return out
 
 
 def g_strays(rng, pre, suf, tensors=True):
